@@ -209,6 +209,24 @@ func TestVerifC02Reconcile(t *testing.T) {
 					Detail: fmt.Sprintf("the high watermark moved back from %d to %d", c.hw, hw)})
 				return
 			}
+			// oracle: "any two replicas hold identical messages at every offset at or below both high watermarks". The first answer
+			// that is not a time-out is the new leader's: `ok:o` says its log (in the replica's latest epoch) ENDS at o. Whatever the
+			// replica keeps beyond o the leader does not have: the leader assigns those offsets to other messages, commits them, and
+			// the two replicas differ at an offset at or below both high watermarks (a fetch never overwrites what a follower holds).
+			for _, rep := range c.replies {
+				if rep == "timeout" {
+					continue
+				}
+				if strings.HasPrefix(rep, "ok:") {
+					o, _ := strconv.ParseInt(rep[3:], 10, 64)
+					if newest > o {
+						res.Fail(vFailure{Kind: "spec", Tag: "reconcile-keeps-divergent-suffix", Case: []string{line}, Impl: impl,
+							Detail: fmt.Sprintf("the new leader's log ends at offset %d, the replica still holds offsets %d..%d after reconciling: the leader will store other messages there and commit them (replicas differ at or below both high watermarks)", o, o+1, newest)})
+						return
+					}
+				}
+				break
+			}
 			// correspondence with the translated body
 			out := model.Ask1(fmt.Sprintf("gomini reconcile 1 %d %d %s %s %s", c.n-1, c.hw, c.replies[0], c.replies[1], c.replies[2]))
 			want := int64(c.n - 1)
